@@ -6,7 +6,6 @@ import (
 	"fmt"
 	"os"
 	"os/exec"
-	"regexp"
 	"strings"
 	"testing"
 	"time"
@@ -188,15 +187,9 @@ func TestDump(t *testing.T) {
 
 // ---- exclusions tied to known findings ----------------------------------------------------------
 
-var (
-	reRequired   = regexp.MustCompile(`[A-Za-z0-9_"#)]\s*!\s*:`)
-)
 
 func excluded(src []byte) string {
-	if reRequired.Match(src) {
-		// F1: a required field next to an embedded scalar constraint ({a!: 1, >1}) overflows the stack
-		return "NoRequiredField(F1)"
-	}
+	// (F1, fixed in /repo: required fields used to be excluded because {a!: 1, >1} overflowed the stack)
 	return ""
 }
 
@@ -213,7 +206,9 @@ var wildFragments = []string{
 
 func gen(t *rapid.T) Case {
 	files := corpus.Files(2000)
-	switch k := rapid.IntRange(0, 13).Draw(t, "kind"); {
+	switch k := rapid.IntRange(0, 16).Draw(t, "kind"); {
+	case k >= 14:
+		return Case{Src: []byte(genDeclSoup(t)), Kind: "decl-soup"}
 	case k == 10 || k == 11:
 		return Case{Src: []byte(genHostileOperands(t)), Kind: "hostile-operands"}
 	case k == 12 || k == 13:
